@@ -223,7 +223,7 @@ func buildCatalogue() []item {
 	// a certificate that names its issuer with the right attributes written as
 	// another string type
 	add("issuer-name-other-string-type", false, notRoot, func(d *desc, pos int) {
-		d.specs[pos].IssuerDER = pki.NameDER([]pki.ATV{{OID: pki.OIDCN, Value: d.specs[pos+1].CN, Tag: 19}})
+		d.specs[pos].IssuerDER = pki.NameDER([]pki.ATV{{OID: pki.OIDCN, Value: d.specs[pos+1].CN, Tag: 12}}) // crypto/x509 writes printable names as PrintableString (19)
 	})
 	add("single-cert-not-self-signed", false, func(pos, n int, ts bool) bool { return n == 1 }, func(d *desc, pos int) {
 		n := "some-issuer"
